@@ -334,18 +334,37 @@ func checkParse(c *ev.Case, cd *codec, in []byte, given []byte, haveGiven bool) 
 		c.Add(pre+"embedded_escapes_decoded", int64(nesc))
 		if in[0] == '\\' {
 			c.Add("embedded_escape_at_start_of_input", 1)
+			c.Add(pre+"embedded_escape_at_start_of_input", 1)
 		}
 		for _, w := range []int{cd.width, 2 * cd.width} {
 			if p := len(in) - w; p >= 0 {
 				if _, w2, ok := canonAt(cd, in, p); ok && w2 == w {
 					c.Add("embedded_escape_at_end_of_input", 1)
+					c.Add(pre+"embedded_escape_at_end_of_input", 1)
+					if w2 == 2*cd.width {
+						c.Add("Utf16/embedded_surrogate_pair_at_end_of_input", 1)
+					}
 					break
 				}
 			}
 		}
+		if cd.id == cUtf16 {
+			np := 0
+			for i := 0; i+2*cd.width <= len(in); i++ {
+				if in[i] == '\\' {
+					if _, w, ok := canonAt(cd, in, i); ok && w == 2*cd.width {
+						np++
+					}
+				}
+			}
+			c.Add("Utf16/embedded_surrogate_pairs_decoded", int64(np))
+		}
 	}
 	if kind == kindImage {
 		c.Add(pre+"image_escapes_decoded", int64(nesc))
+		if nesc >= 2 {
+			c.Add(pre+"images_of_adjacent_escapes", 1)
+		}
 	}
 	c.Max("max_parse_input_len", int64(len(in)))
 
@@ -374,14 +393,18 @@ func checkParse(c *ev.Case, cd *codec, in []byte, given []byte, haveGiven bool) 
 		c.Failf("len", "%sParse(dst, %s) returned %d for %d input bytes", cd.name, q(in), n, len(in))
 		return false
 	}
-	for i := n; i < len(dst); i++ {
+	// dst[n:len(in)] may have served as scratch space: the statement bounds what
+	// is produced by len(input) and says nothing about the rest of that prefix.
+	for i := len(in); i < len(dst); i++ {
 		if dst[i] != canary(i) {
-			where := "beyond the returned length"
-			if i >= len(in) {
-				where = "beyond len(input)"
-			}
-			c.Failf("canary", "%sParse(dst, %s) returned %d but wrote dst[%d] (%s)", cd.name, q(in), n, i, where)
+			c.Failf("canary", "%sParse(dst, %s) returned %d but wrote dst[%d], beyond len(input) = %d", cd.name, q(in), n, i, len(in))
 			return false
+		}
+	}
+	for i := n; i < len(in); i++ {
+		if dst[i] != canary(i) {
+			c.Add(pre+"parse_used_dst_beyond_returned_length_as_scratch", 1)
+			break
 		}
 	}
 	if !bytes.Equal(src, in) {
